@@ -14,6 +14,7 @@
 //	tempfile  concurrent newTempFile (cwd, O_EXCL) and temp-file registry (deferDelete/cleanup)
 //	fetch     parallel fetch of many sources (and bases) through driver.PProf with a Fetcher
 //	binutils  Binutils.get/update, file.baseOnce, the addr2line / llvm-symbolizer pipes
+//	transport pprof's own HTTP transport shared by the concurrent fetches of one invocation
 //
 // Each mix runs in a CHILD process (this binary re-executed) with
 // GORACE="halt_on_error=0 exitcode=66 log_path=…": a race-detector report or a result that differs
@@ -92,7 +93,7 @@ func (o *c20Obs) hit(k string) {
 	o.mu.Unlock()
 }
 
-var c20Mixes = []string{"profile", "web", "options", "tempfile", "fetch", "binutils"}
+var c20Mixes = []string{"profile", "web", "options", "tempfile", "fetch", "binutils", "transport"}
 
 func runC20(c *Ctx) {
 	if os.Getenv("C20_CHILD") != "" {
@@ -145,6 +146,8 @@ func c20Generated(c *Ctx, boost int) {
 			cs.Rounds = 12 * boost * c.Scale
 		case "profile":
 			cs.Rounds = 30 * boost * c.Scale
+		case "transport":
+			cs.Rounds = 4 * boost * c.Scale
 		case "binutils":
 			cs.Goroutines = 4 + r.Intn(6)
 			cs.Rounds = 6 * boost * c.Scale
@@ -494,6 +497,8 @@ func c20Child(c *Ctx) {
 				c20MixFetch(&cs, obs)
 			case "binutils":
 				c20MixBinutils(&cs, obs)
+			case "transport":
+				c20MixTransport(&cs, obs)
 			default:
 				obs.Error = "unknown mix " + cs.Mix
 			}
